@@ -331,6 +331,172 @@ structure All (s : State) : Prop where
   inv : Inv s
   both : Both s
 
+theorem runAll_pres {f : Nat → State → Except Err State} {P : State → Prop} {Q : Nat → State → Prop}
+    (hstep : ∀ id s s', P s → Q id s → f id s = .ok s' → P s' ∧ ∀ id', id' ≠ id → Q id' s → Q id' s') :
+    ∀ (ids : List Nat) (s s' : State), ids.Nodup → (∀ id ∈ ids, Q id s) → P s → runAll f ids s = .ok s' → P s' := by
+  intro ids
+  induction ids with
+  | nil => intro s s' _ _ hp h; simp [runAll] at h; subst h; exact hp
+  | cons id r ih =>
+    intro s s' hnd hq hp h
+    simp only [runAll] at h
+    split at h
+    · rename_i s1 h1
+      obtain ⟨p1, q1⟩ := hstep id s s1 hp (hq id List.mem_cons_self) h1
+      have hnd' := List.nodup_cons.mp hnd
+      exact ih s1 s' hnd'.2 (fun x hx => q1 x (fun he => hnd'.1 (he ▸ hx)) (hq x (List.mem_cons_of_mem _ hx))) p1 h
+    · cases h
+
+/-- one inactive-queue entry: never fails … -/
+theorem dropInactive_tot {s : State} {id : Nat} (h1 : inactiveSettleShapeOk = true) (ha : All s)
+    (hq : ∃ t, (t, id) ∈ s.inactive) : ∃ s', dropInactive id s = .ok s' := by
+  obtain ⟨t, ht⟩ := hq
+  obtain ⟨p0, hp0, _, _⟩ := ha.both.q.inactSound t id ht
+  unfold dropInactive
+  simp only [hp0, h1, if_true]
+  split
+  · exact refundDeposits_total (by simpa using ha.inv.bal)
+  · exact burnDeposits_total (by simpa using ha.inv.bal)
+
+/-- … keeps the invariants and the entries of the other proposals -/
+theorem dropInactive_step {s s' : State} {id : Nat} (h1 : inactiveSettleShapeOk = true) (ha : All s)
+    (hq : ∃ t, (t, id) ∈ s.inactive) (hs' : dropInactive id s = .ok s') :
+    All s' ∧ ∀ id', id' ≠ id → (∃ t, (t, id') ∈ s.inactive) → ∃ t, (t, id') ∈ s'.inactive := by
+  obtain ⟨t, ht⟩ := hq
+  obtain ⟨p0, hp0, _, _⟩ := ha.both.q.inactSound t id ht
+  refine ⟨⟨dropInactive_inv h1 ha.inv hs', dropInactive_both ha.both ha.inv ⟨t, ht⟩ hs'⟩, ?_⟩
+  intro id' hne ⟨t', ht'⟩
+  refine ⟨t', ?_⟩
+  have hia : s'.inactive = removeQ (p0.depositEnd, id) s.inactive := by
+    unfold dropInactive at hs'
+    simp only [hp0, h1, if_true] at hs'
+    split at hs'
+    · exact (refundDeposits_spec (by simpa using ha.inv.bal) hs').2.2.2.1
+    · exact (burnDeposits_spec (by simpa using ha.inv.bal) hs').2.2.2.1
+  rw [hia]
+  exact mem_removeQ.mpr ⟨ht', fun he => hne (Prod.mk.inj he).2⟩
+
+/-- `finishTally` cannot fail in a state whose module balance covers the deposits -/
+theorem finishTally_tot {s : State} (h2 : settleShapeOk = true) (hb : s.gov = sumAmt s.deps) (passes burn : Bool)
+    (res : Nat × Nat × Nat × Nat) (p : Proposal) (pid : Nat) : ∃ s', finishTally passes burn res p pid s = .ok s' := by
+  unfold finishTally
+  simp only [h2, Bool.not_true, Bool.false_and, Bool.false_eq_true, if_false]
+  simp only [h2, if_true]
+  by_cases hk : (p.expedited && !passes) = true
+  · simp only [hk, Bool.not_true, Bool.false_eq_true, if_false]
+    split
+    · exact ⟨_, rfl⟩
+    · split <;> exact ⟨_, rfl⟩
+  · have hk' : (p.expedited && !passes) = false := by simpa using hk
+    simp only [hk', Bool.not_false, if_true]
+    have : ∃ s1, (if burn = true then burnDeposits pid s else refundDeposits pid s) = .ok s1 := by
+      split
+      · exact burnDeposits_total hb
+      · exact refundDeposits_total hb
+    obtain ⟨s1, h1'⟩ := this
+    rw [h1']
+    simp only
+    split
+    · exact ⟨_, rfl⟩
+    · split <;> exact ⟨_, rfl⟩
+
+/-- one active-queue entry: never fails when bonded validators have delegator shares … -/
+theorem tallyOne_tot {s : State} {stk : Staking} {id : Nat} (h2 : settleShapeOk = true) (h4 : tallyRemovesVotes = true)
+    (h5 : tallyDelegationNeedsBondedValidator = true) (ha : All s) (hq : ∃ t, (t, id) ∈ s.active) (hs : stakingOk stk) :
+    ∃ s', tallyOne stk id s = .ok s' := by
+  obtain ⟨t, ht⟩ := hq
+  obtain ⟨p0, hp0, _, _⟩ := ha.both.q.actSound t id ht
+  have hvalid : ∀ v ∈ votesOf s.votes id, optsValid v.opts = true :=
+    fun v hv => ha.both.v.valid v (mem_votesOf.mp hv).1
+  obtain ⟨n, hn, hj, _⟩ := tallyNums_ok (votes := votesOf s.votes id) hvalid hs h5
+  obtain ⟨⟨passes, burn⟩, hr⟩ := tally_ok s p0 hj
+  unfold tallyOne
+  simp only [hp0, hn, hr, h4, if_true]
+  exact finishTally_tot (s := { s with votes := votesNot s.votes id }) h2 ha.inv.bal passes burn _ p0 id
+
+/-- … keeps the invariants and the entries of the other proposals -/
+theorem tallyOne_step {s s' : State} {stk : Staking} {id : Nat} (h2 : settleShapeOk = true) (h3 : execInCacheCtx = true)
+    (h4 : tallyRemovesVotes = true) (ha : All s) (hq : ∃ t, (t, id) ∈ s.active) (hs' : tallyOne stk id s = .ok s') :
+    All s' ∧ ∀ id', id' ≠ id → (∃ t, (t, id') ∈ s.active) → ∃ t, (t, id') ∈ s'.active := by
+  obtain ⟨t, ht⟩ := hq
+  obtain ⟨p0, hp0, hst0, _⟩ := ha.both.q.actSound t id ht
+  unfold tallyOne at hs'
+  simp only [hp0] at hs'
+  split at hs'
+  · cases hs'
+  · rename_i n hn
+    split at hs'
+    · cases hs'
+    · rename_i passes burn hr
+      simp only [h4, if_true] at hs'
+      have hi0 : Inv { s with votes := votesNot s.votes id } := ⟨ha.inv.bal, ha.inv.recs⟩
+      have hb0 : Both { s with votes := votesNot s.votes id } := ⟨ha.both.q, vi_votesNot ha.both.v id⟩
+      have hn0 : ∀ v ∈ votesNot s.votes id, v.pid ≠ id := fun v hv => (mem_votesNot.mp hv).2
+      refine ⟨⟨finishTally_inv h2 h3 hi0 hp0 hs', finishTally_both h2 h3 hb0 hi0 hp0 hst0 hn0 hs'⟩, ?_⟩
+      intro id' hne ⟨t', ht'⟩
+      refine ⟨t', ?_⟩
+      unfold finishTally at hs'
+      simp only [h2, Bool.not_true, Bool.false_and, Bool.false_eq_true, if_false] at hs'
+      simp only [h2, if_true] at hs'
+      have settle : ∀ s1 : State,
+          (if (!(p0.expedited && !passes)) = true then (if burn = true then burnDeposits id { s with votes := votesNot s.votes id }
+            else refundDeposits id { s with votes := votesNot s.votes id }) else Except.ok { s with votes := votesNot s.votes id }) = .ok s1 →
+          s1.active = s.active := by
+        intro s1 hx
+        split at hx
+        · split at hx
+          · exact (burnDeposits_spec hi0.bal hx).2.2.2.2.1
+          · exact (refundDeposits_spec hi0.bal hx).2.2.2.2.1
+        · cases hx; rfl
+      split at hs'
+      · cases hs'
+      · rename_i s1 hx
+        have ea := settle s1 hx
+        have hm : (t', id') ∈ removeQ (p0.votingEnd, id) s1.active := by
+          rw [ea]; exact mem_removeQ.mpr ⟨ht', fun he => hne (Prod.mk.inj he).2⟩
+        split at hs'
+        · generalize hr' : runProposalMsgs p0.msgs { s1 with active := removeQ (p0.votingEnd, id) s1.active } = rr at hs'
+          obtain ⟨s3, ok⟩ := rr
+          simp only at hs'
+          cases hs'
+          have : s3.active = removeQ (p0.votingEnd, id) s1.active := by
+            have e3 : s3 = (runProposalMsgs p0.msgs { s1 with active := removeQ (p0.votingEnd, id) s1.active }).1 := by rw [hr']
+            rw [e3]
+            exact (runProposalMsgs_same h3 p0.msgs { s1 with active := removeQ (p0.votingEnd, id) s1.active }).2.2.2.2.1
+          show (t', id') ∈ s3.active
+          rw [this]; exact hm
+        · split at hs'
+          · cases hs'
+            exact mem_insertQ.mpr (Or.inr hm)
+          · cases hs'
+            exact hm
+
+theorem dueIds_inactive_nodup {s : State} (ha : All s) : (dueIds s.inactive s.time).Nodup :=
+  dueIds_nodup ha.both.q.inactSorted (fun t t' id m1 m2 => by
+    obtain ⟨p1, f1, _, d1⟩ := ha.both.q.inactSound t id m1
+    obtain ⟨p2, f2, _, d2⟩ := ha.both.q.inactSound t' id m2
+    rw [f1] at f2; cases f2; rw [← d1, ← d2]) s.time
+
+theorem dueIds_active_nodup {s : State} (ha : All s) : (dueIds s.active s.time).Nodup :=
+  dueIds_nodup ha.both.q.actSorted (fun t t' id m1 m2 => by
+    obtain ⟨p1, f1, _, d1⟩ := ha.both.q.actSound t id m1
+    obtain ⟨p2, f2, _, d2⟩ := ha.both.q.actSound t' id m2
+    rw [f1] at f2; cases f2; rw [← d1, ← d2]) s.time
+
+/-- the end-blocker keeps the invariants, whatever the staking numbers are -/
+theorem endBlock_pres {s s' : State} {stk : Staking} (h1 : inactiveSettleShapeOk = true) (h2 : settleShapeOk = true)
+    (h3 : execInCacheCtx = true) (h4 : tallyRemovesVotes = true) (ha : All s) (h : endBlock stk s = .ok s') : All s' := by
+  unfold endBlock at h
+  split at h
+  · cases h
+  · rename_i s1 e1
+    have a1 : All s1 := runAll_pres (f := dropInactive) (P := All) (Q := fun id s => ∃ t, (t, id) ∈ s.inactive)
+      (fun id s s' ha hq hs' => dropInactive_step h1 ha hq hs') _ s s1 (dueIds_inactive_nodup ha)
+      (fun id hid => mem_dueIds hid) ha e1
+    exact runAll_pres (f := tallyOne stk) (P := All) (Q := fun id s => ∃ t, (t, id) ∈ s.active)
+      (fun id s s' ha hq hs' => tallyOne_step h2 h3 h4 ha hq hs') _ s1 s' (dueIds_active_nodup a1)
+      (fun id hid => mem_dueIds hid) a1 h
+
 /-- **the end-blocker is total**: in a state that satisfies the three invariants, with bonded validators that have
 delegator shares, both walks succeed on every due entry — no refund or burn lacks funds, no queue entry lacks its
 proposal, no tally divides by zero — and the invariants hold again afterwards -/
@@ -338,137 +504,26 @@ theorem endBlock_total {s : State} {stk : Staking} (h1 : inactiveSettleShapeOk =
     (h3 : execInCacheCtx = true) (h4 : tallyRemovesVotes = true) (h5 : tallyDelegationNeedsBondedValidator = true)
     (ha : All s) (hs : stakingOk stk) : ∃ s', endBlock stk s = .ok s' ∧ All s' := by
   unfold endBlock
-  -- first walk
   obtain ⟨s1, e1, a1⟩ := runAll_total (f := dropInactive) (P := All) (Q := fun id s => ∃ t, (t, id) ∈ s.inactive)
     (by
       intro id s ha hq
-      obtain ⟨t, ht⟩ := hq
-      obtain ⟨p0, hp0, _, _⟩ := ha.both.q.inactSound t id ht
-      have tot : ∃ s', dropInactive id s = .ok s' := by
-        unfold dropInactive
-        simp only [hp0, h1, if_true]
-        split
-        · exact refundDeposits_total (by simpa using ha.inv.bal)
-        · exact burnDeposits_total (by simpa using ha.inv.bal)
-      obtain ⟨s', hs'⟩ := tot
-      refine ⟨s', hs', ⟨dropInactive_inv h1 ha.inv hs', dropInactive_both ha.both ha.inv ⟨t, ht⟩ hs'⟩, ?_⟩
-      intro id' hne ⟨t', ht'⟩
-      refine ⟨t', ?_⟩
-      -- the inactive queue of s' is that of s without the entry of `id`
-      have hia : s'.inactive = removeQ (p0.depositEnd, id) s.inactive := by
-        unfold dropInactive at hs'
-        simp only [hp0, h1, if_true] at hs'
-        split at hs'
-        · exact (refundDeposits_spec (by simpa using ha.inv.bal) hs').2.2.2.1
-        · exact (burnDeposits_spec (by simpa using ha.inv.bal) hs').2.2.2.1
-      rw [hia]
-      exact mem_removeQ.mpr ⟨ht', fun he => hne (Prod.mk.inj he).2⟩)
-    (dueIds s.inactive s.time) s
-    (dueIds_nodup ha.both.q.inactSorted (fun t t' id m1 m2 => by
-      obtain ⟨p1, f1, _, d1⟩ := ha.both.q.inactSound t id m1
-      obtain ⟨p2, f2, _, d2⟩ := ha.both.q.inactSound t' id m2
-      rw [f1] at f2; cases f2; rw [← d1, ← d2]) s.time)
-    (fun id hid => mem_dueIds hid) ha
+      obtain ⟨s', hs'⟩ := dropInactive_tot h1 ha hq
+      have := dropInactive_step h1 ha hq hs'
+      exact ⟨s', hs', this.1, this.2⟩)
+    (dueIds s.inactive s.time) s (dueIds_inactive_nodup ha) (fun id hid => mem_dueIds hid) ha
   simp only [e1]
-  -- second walk
   exact runAll_total (f := tallyOne stk) (P := All) (Q := fun id s => ∃ t, (t, id) ∈ s.active)
     (by
       intro id s ha hq
-      obtain ⟨t, ht⟩ := hq
-      obtain ⟨p0, hp0, hst0, hve⟩ := ha.both.q.actSound t id ht
-      have hvalid : ∀ v ∈ votesOf s.votes id, optsValid v.opts = true :=
-        fun v hv => ha.both.v.valid v (mem_votesOf.mp hv).1
-      obtain ⟨n, hn, hj, _⟩ := tallyNums_ok (votes := votesOf s.votes id) hvalid hs h5
-      obtain ⟨r, hr⟩ := tally_ok s p0 hj
-      obtain ⟨passes, burn⟩ := r
-      -- the state handed to `finishTally`
-      have hi0 : Inv { s with votes := votesNot s.votes id } := ⟨ha.inv.bal, ha.inv.recs⟩
-      have hb0 : Both { s with votes := votesNot s.votes id } := ⟨ha.both.q, vi_votesNot ha.both.v id⟩
-      have hn0 : ∀ v ∈ votesNot s.votes id, v.pid ≠ id := fun v hv => (mem_votesNot.mp hv).2
-      have unf : tallyOne stk id s = finishTally passes burn (n.yes / DEC, n.abstain / DEC, n.no / DEC, n.veto / DEC) p0 id
-          { s with votes := votesNot s.votes id } := by
-        unfold tallyOne
-        simp only [hp0, hn, hr, h4, if_true]
-      -- `finishTally` cannot fail: the settlement is covered by the deposit invariant
-      have tot : ∃ s', finishTally passes burn (n.yes / DEC, n.abstain / DEC, n.no / DEC, n.veto / DEC) p0 id
-          { s with votes := votesNot s.votes id } = .ok s' := by
-        unfold finishTally
-        simp only [h2, Bool.not_true, Bool.false_and, Bool.false_eq_true, if_false]
-        simp only [h2, if_true]
-        by_cases hk : (p0.expedited && !passes) = true
-        · simp only [hk, Bool.not_true, Bool.false_eq_true, if_false]
-          split
-          · exact ⟨_, rfl⟩
-          · split <;> exact ⟨_, rfl⟩
-        · have hk' : (p0.expedited && !passes) = false := by simpa using hk
-          simp only [hk', Bool.not_false, if_true]
-          have : ∃ s1, (if burn = true then burnDeposits id { s with votes := votesNot s.votes id }
-              else refundDeposits id { s with votes := votesNot s.votes id }) = .ok s1 := by
-            split
-            · exact burnDeposits_total hi0.bal
-            · exact refundDeposits_total hi0.bal
-          obtain ⟨s1, h1'⟩ := this
-          rw [h1']
-          simp only
-          split
-          · exact ⟨_, rfl⟩
-          · split <;> exact ⟨_, rfl⟩
-      obtain ⟨s', hs'⟩ := tot
-      refine ⟨s', by rw [unf]; exact hs', ⟨finishTally_inv h2 h3 hi0 hp0 hs', finishTally_both h2 h3 hb0 hi0 hp0 hst0 hn0 hs'⟩, ?_⟩
-      -- entries of other proposals stay in the active queue
-      intro id' hne ⟨t', ht'⟩
-      have key : ∀ x, x ∈ removeQ (p0.votingEnd, id) s.active → ∃ t'', (t'', id') ∈ s'.active → True := fun _ _ => ⟨0, fun _ => trivial⟩
-      clear key
-      -- read the active queue off `finishTally`
-      have hact : (t', id') ∈ s'.active := by
-        unfold finishTally at hs'
-        simp only [h2, Bool.not_true, Bool.false_and, Bool.false_eq_true, if_false] at hs'
-        simp only [h2, if_true] at hs'
-        have settle : ∀ s1 : State,
-            (if (!(p0.expedited && !passes)) = true then (if burn = true then burnDeposits id { s with votes := votesNot s.votes id }
-              else refundDeposits id { s with votes := votesNot s.votes id }) else Except.ok { s with votes := votesNot s.votes id }) = .ok s1 →
-            s1.active = s.active := by
-          intro s1 hx
-          split at hx
-          · split at hx
-            · exact (burnDeposits_spec hi0.bal hx).2.2.2.2.1
-            · exact (refundDeposits_spec hi0.bal hx).2.2.2.2.1
-          · cases hx; rfl
-        split at hs'
-        · cases hs'
-        · rename_i s1 hx
-          have ea := settle s1 hx
-          have hm : (t', id') ∈ removeQ (p0.votingEnd, id) s1.active := by
-            rw [ea]; exact mem_removeQ.mpr ⟨ht', fun he => hne (Prod.mk.inj he).2⟩
-          split at hs'
-          · generalize hr' : runProposalMsgs p0.msgs { s1 with active := removeQ (p0.votingEnd, id) s1.active } = rr at hs'
-            obtain ⟨s3, ok⟩ := rr
-            simp only at hs'
-            cases hs'
-            have : s3.active = removeQ (p0.votingEnd, id) s1.active := by
-              have e3 : s3 = (runProposalMsgs p0.msgs { s1 with active := removeQ (p0.votingEnd, id) s1.active }).1 := by rw [hr']
-              rw [e3]
-              exact (runProposalMsgs_same h3 p0.msgs { s1 with active := removeQ (p0.votingEnd, id) s1.active }).2.2.2.2.1
-            show (t', id') ∈ s3.active
-            rw [this]; exact hm
-          · split at hs'
-            · cases hs'
-              exact mem_insertQ.mpr (Or.inr hm)
-            · cases hs'
-              exact hm
-      exact ⟨t', hact⟩)
-    (dueIds s1.active s1.time) s1
-    (dueIds_nodup a1.both.q.actSorted (fun t t' id m1 m2 => by
-      obtain ⟨p1, f1, _, d1⟩ := a1.both.q.actSound t id m1
-      obtain ⟨p2, f2, _, d2⟩ := a1.both.q.actSound t' id m2
-      rw [f1] at f2; cases f2; rw [← d1, ← d2]) s1.time)
-    (fun id hid => mem_dueIds hid) a1
+      obtain ⟨s', hs'⟩ := tallyOne_tot h2 h4 h5 ha hq hs
+      have := tallyOne_step h2 h3 h4 ha hq hs'
+      exact ⟨s', hs', this.1, this.2⟩)
+    (dueIds s1.active s1.time) s1 (dueIds_active_nodup a1) (fun id hid => mem_dueIds hid) a1
 
 /-! ### every history -/
 
 theorem step_all (h1 : inactiveSettleShapeOk = true) (h2 : settleShapeOk = true) (h3 : execInCacheCtx = true)
-    (h4 : tallyRemovesVotes = true) (h5 : tallyDelegationNeedsBondedValidator = true)
-    {s : State} (op : Op) (ha : All s) (hop : ∀ dt stk, op = .endBlock dt stk → stakingOk stk) : All (step s op).1 := by
+    (h4 : tallyRemovesVotes = true) {s : State} (op : Op) (ha : All s) : All (step s op).1 := by
   refine ⟨step_inv h1 h2 h3 op ha.inv, ?_⟩
   cases op with
   | mint who amt => exact both_of_eq ha.both rfl rfl rfl rfl rfl
@@ -508,30 +563,20 @@ theorem step_all (h1 : inactiveSettleShapeOk = true) (h2 : settleShapeOk = true)
     · exact ha.both
     · exact both_of_eq ha.both rfl rfl rfl rfl rfl
   | endBlock dt stk =>
-    obtain ⟨s', hs', a'⟩ := endBlock_total h1 h2 h3 h4 h5 ha (hop dt stk rfl)
-    simp only [step, hs']
-    exact both_of_eq a'.both rfl rfl rfl rfl rfl
+    simp only [step]
+    split
+    · rename_i s' hs'
+      exact both_of_eq (endBlock_pres h1 h2 h3 h4 ha hs').both rfl rfl rfl rfl rfl
+    · exact ha.both
 
-/-- the staking numbers of every block of a history are those of a staking state: bonded validators have shares -/
-def opsOk : List Op → Prop
-  | [] => True
-  | .endBlock _ stk :: r => stakingOk stk ∧ opsOk r
-  | _ :: r => opsOk r
-
+/-- the invariants hold after every history, whatever the staking numbers handed to the blocks were (a block whose
+end-blocker returns an error leaves the model state unchanged) -/
 theorem run_all (h1 : inactiveSettleShapeOk = true) (h2 : settleShapeOk = true) (h3 : execInCacheCtx = true)
-    (h4 : tallyRemovesVotes = true) (h5 : tallyDelegationNeedsBondedValidator = true) :
-    ∀ (ops : List Op) (s : State), All s → opsOk ops → All (run s ops) := by
+    (h4 : tallyRemovesVotes = true) : ∀ (ops : List Op) (s : State), All s → All (run s ops) := by
   intro ops
   induction ops with
-  | nil => intro s ha _; exact ha
-  | cons o r ih =>
-    intro s ha hok
-    have hr : opsOk r := by
-      cases o <;> first | exact hok | exact hok.2
-    refine ih _ (step_all h1 h2 h3 h4 h5 o ha ?_) hr
-    intro dt stk he
-    subst he
-    exact hok.1
+  | nil => intro s ha; exact ha
+  | cons o r ih => intro s ha; exact ih _ (step_all h1 h2 h3 h4 o ha)
 
 theorem init_all : All init := ⟨init_inv, init_qinv, init_vinv⟩
 
